@@ -373,6 +373,15 @@ func (r *RegistryDefault) Init(ctx context.Context) (err error) {
 		}
 
 		r.p.SetNetwork(network.ID)
+
+		// The getters below build per-registry singletons lazily and without
+		// synchronisation. Build them now, before any request can be served, so
+		// that concurrent first requests only ever read them.
+		r.Writer()
+		r.Mapper()
+		r.ReadOnlyMapper()
+		r.PermissionEngine()
+		r.ExpandEngine()
 	})
 	return r.init2err
 }
